@@ -1108,15 +1108,26 @@ def rule_halo_refined(w):
                 ck.incomplete("E7.halo-refined", "%s: %s is not called from a loop over the node's mesh-part map" % (key, e.name))
                 continue
             elem = lp0.var
-            if arg is not None and arg.get("k") == "Null":
+
+            def from_elem(expr, depth=0):
+                """the expression is built from the loop element (also through reference locals / bound parameters of an inlined helper)"""
+                for x in walk(expr):
+                    if x.get("k") == "Ref" and x.get("d") == elem:
+                        return True
+                    if x.get("k") == "Ref" and x.get("dk") == "local" and depth < 3:
+                        v0 = fk.locals.get(x.get("d"))
+                        if v0 is not None and v0.get("init") is not None and not fk.mut.get(x.get("d")) and from_elem(v0["init"], depth + 1):
+                            return True
+                return False
+            if arg is not None and (arg.get("k") == "Null" or (arg.get("k") in ("Construct", "TempObj") and "unique_ptr" in (arg.get("callee") or "") and not arg.get("a"))):
                 verdict = ("null", None)
             elif arg is not None and arg.get("k") == "MCall" and arg.get("n") == "make_unique" and strip(arg.get("obj")).get("k") == "Ref":
                 v = fk.locals.get(strip(arg["obj"]).get("d"))
                 init = strip(v.get("init")) if v is not None and v.get("init") is not None else None
                 okr = init is not None and init.get("k") in ("Construct", "TempObj") and re.search(r"StandardRefinery<FEAT::Geometry::MeshPart<", init.get("callee") or "") \
-                    and len(init.get("a", [])) == 2 and any(x.get("k") == "Ref" and x.get("d") == elem for x in walk(init["a"][0]))
+                    and len(init.get("a", [])) == 2 and from_elem(init["a"][0])
                 verdict = ("refined", None) if okr else ("unknown", "make_unique() of %s" % render(init))
-            elif arg is not None and any(x.get("k") == "MCall" and x.get("n") == "clone" for x in walk(arg)) and any(x.get("k") == "Ref" and x.get("d") == elem for x in walk(arg)):
+            elif arg is not None and any(x.get("k") == "MCall" and x.get("n") == "clone" for x in walk(arg)) and from_elem(arg):
                 verdict = ("copied", render(arg)[:80])
             else:
                 verdict = ("unknown", render(arg)[:80] if arg is not None else "?")
@@ -1470,11 +1481,22 @@ def rule_parti_two_pass(w):
         terms = dict((t, sg) for sg, t in (of.val_terms or []))
         rowlen = [t for t in terms if t != "%s[$%d]" % (P, olps[0].depth if olps and olps[0] is not None else 0)]
         m = re.match(r"^(.*)\[\$(\d+)\]\.size\(\)$", rowlen[0]) if len(rowlen) == 1 else None
-        if len(olps) != 1 or olps[0] is None or olps[0].kind != "range" or olps[0].lo != 0 or olps[0].hi is None or of.op != "=" or of.idx_canon != "($%d + 1)" % olps[0].depth \
-                or len(terms) != 2 or any(sg != 1 for sg in terms.values()) or m is None or int(m.group(2)) != olps[0].depth:
+        # fused form: one sweep `for r: { for x in C[r]: idx[counter++] = x;  ptr[r+1] = counter; }` - the end offset of a row IS the fill cursor behind it
+        st_outer = [f for f in st.frames if f.kind == "loop"][:1]
+        ov, sx = strip(of.val), strip(st.idx)
+        fused = len(olps) == 1 and olps[0] is not None and st_outer and st_outer[0].loop is olps[0] and of.op == "=" and of.idx_canon == "($%d + 1)" % olps[0].depth \
+            and ov.get("k") == "Ref" and sx.get("k") == "Ref" and ov.get("d") == sx.get("d") and of.seq > st.seq \
+            and len([f for f in of.frames if f.kind == "loop"]) == 1 and not any(f.kind == "if" for f in of.frames[len(st.frames) - 2:])
+        if fused:
+            m = re.match(r"^(.*)$", "fused")
+        if not fused and (len(olps) != 1 or olps[0] is None or olps[0].kind != "range" or olps[0].lo != 0 or olps[0].hi is None or of.op != "=" or of.idx_canon != "($%d + 1)" % olps[0].depth \
+                or len(terms) != 2 or any(sg != 1 for sg in terms.values()) or m is None or int(m.group(2)) != olps[0].depth):
             ck.incomplete(R, "%s: the offsets are not defined as `ptr[i+1] = C[i].size() + ptr[i]` over a counted loop (%s[%s] = %s)" % (name, P, of.idx_canon, of.val_canon))
             continue
-        C, N = m.group(1), fk.norm(olps[0].hi)
+        C, N = (None if fused else m.group(1)), fk.norm(olps[0].hi)
+        if fused and (olps[0].kind != "range" or olps[0].lo != 0 or olps[0].hi is None):
+            ck.incomplete(R, "%s: the fused sweep is not a counted loop from 0 (%s)" % (name, olps[0].canon))
+            continue
         # fill: for r in [0,M): for(x : C'[r]) idx[counter++] = x
         sl = [f.loop for f in st.frames if f.kind == "loop"]
         ix = strip(st.idx)
@@ -1504,6 +1526,12 @@ def rule_parti_two_pass(w):
             continue
         dom = fk.norm(Lin.atom("Dom(graph)"))
         problems = []
+        if fused:
+            C = C2
+            first = [e for e in fk.events if e.kind == "sub" and e.mode == "write" and e.arr is not None and e.arr.key == P and not any(f.kind == "loop" for f in e.frames)
+                     and e.rng.exact is not None and fk.norm(e.rng.exact) == Lin.const(0) and fk.size(e.val) == Lin.const(0) and e.seq < st.seq]
+            if not first:
+                problems.append("the end offsets ptr[r+1] are stored in the sweep but ptr[0] is not set to 0 before it")
         if C != C2:
             problems.append("the row lengths are taken from %s but the rows are copied from %s" % (C, C2))
         if N != M:
